@@ -389,7 +389,8 @@ func propC19(c bookCase, o *hx.Obs) *hx.Failure {
 		}
 	}
 	// book move from a time-controlled search
-	if c.WithSearch && m.counts[uint64(hx.NewPos(rc.StartFEN).ZobristKey())] > 0 && !m.promo {
+	// (only when the book offers a move in the root: at least one game has a legal first move)
+	if c.WithSearch && m.counts[uint64(hx.NewPos(rc.StartFEN).ZobristKey())] > 0 && len(m.counts) > 1 && !m.promo {
 		save := config.Settings
 		defer func() { config.Settings = save }()
 		name := "searchbook.san"
